@@ -44,11 +44,21 @@ def val(tag, ln):
     return bytes([tag]) * ln
 
 
+# when recording executions whose values are arbitrary bytes, a registry gives every distinct
+# non-repeated value an abstract tag >= 1000 (all the specification needs of a value is its length,
+# whether it is a single byte < 0x80, and its identity)
+VALUE_REGISTRY = None
+
+
 def unval(b):
-    """bytes -> (tag, len); only repeated-byte values are representable."""
+    """bytes -> (tag, len); repeated-byte values directly, others through VALUE_REGISTRY."""
     if b == b"":
         return (0, 0)
     if b != bytes([b[0]]) * len(b):
+        if VALUE_REGISTRY is not None:
+            if b not in VALUE_REGISTRY:
+                VALUE_REGISTRY[b] = 1000 + len(VALUE_REGISTRY)
+            return (VALUE_REGISTRY[b], len(b))
         raise MachineryError(f"value {b!r} is not a repeated byte")
     return (b[0], len(b))
 
